@@ -173,10 +173,13 @@ class Affine:
             return None
         proj = [e for e in p["p"] if e != "deref"]
         r = self.root_local(p)
-        if proj or r != p["l"]:
+        if proj:
             # storage reached through fields: name symbolically
-            if proj:
-                return ("sym", render(self.sym.place(p)))
+            return ("sym", render(self.sym.place(p)))
+        # a reference local created from a field place (`_5 = &_1.query`): name the field, not the temporary
+        defs = self.b.defs_of(r)
+        if len(defs) == 1 and defs[0][0] == "assign" and "ref" in defs[0][3] and [e for e in defs[0][3]["ref"]["p"] if e != "deref"]:
+            return ("sym", render(self.sym.place(defs[0][3]["ref"])))
         return ("L", r)
 
     def len_form(self, st, op):
